@@ -71,7 +71,8 @@ class VCRuntime:
         return u
 
     def _spec(self, k) -> LoopSpec | None:
-        return self._unit().loop_specs.get((self.fn_id, k)) or self._unit().loop_specs.get(k)
+        u = self._unit()
+        return u.loop_specs.get((self.fn_id, k)) or u.loop_specs.get(k) or getattr(u, "default_loop_spec", None)
 
     # -- builtins -----------------------------------------------------------
     def b_len(self, x):
